@@ -4,7 +4,7 @@
 From RU Require Import Base.Prelude Base.Utf8 Base.U32_c13 Gen.Tables Model.Punycode Model.Uts46
   Proofs.Idna_Sim Proofs.Idna_Api Proofs.Idna_Known Proofs.Idna_Hyp Proofs.Idna_Tables Proofs.Idna_Redisc
   Proofs.Idna_C10_Deny Proofs.Idna_C10_Prefix Proofs.Idna_C10_Inner Proofs.Idna_Mark Proofs.Idna_MarkWalk Proofs.Idna_MarkFffd
-  Proofs.Idna_WalkFun Proofs.Idna_WalkInv Proofs.Idna_WalkApi.
+  Proofs.Idna_WalkFun Proofs.Idna_WalkInv Proofs.Idna_WalkApi Proofs.Idna_WalkPass.
 
 (* the core: for EVERY adapter, the fail-fast run of process_inner returns early exactly when the
    marking run sets had_errors, and otherwise the two runs produce the same buffers *)
@@ -238,12 +238,32 @@ Proof. exact c11_dual_unconditional_refuted. Qed.
 Check C11_dual_unconditional_refuted : exists A, forall cfg, ~ C11_dual_statement A cfg.
 Print Assumptions C11_dual_unconditional_refuted.
 
-(* THE PASSTHROUGH OUTCOME, IN FULL (C11_passthrough_statement): in every mode (fail-fast or mark-errors, any policy,
-   any sinks, with or without ASCII sink), outside Known_C11 (finding F-C11-2, exactly), Passthrough is returned only
-   for an ASCII input that is its own ToASCII result.  The ASCII half needs no premise at all (next theorem). *)
-Theorem C11_passthrough : forall A cfg, map_normalize A [] = [] -> C11_passthrough_statement A cfg.
-Proof. exact c11_passthrough_full. Qed.
-Check C11_passthrough : forall A cfg, map_normalize A [] = [] -> forall ff p d deny hy k1 k2 w s a, bytes d -> valid_deny deny ->
+(* where the two runs of process_inner can differ, exactly: the fail-fast run takes the early return and the marking
+   run has set had_errors or appended an AalOther entry to already_punycode (or panicked) - or the two runs return
+   the same, error-free result.  Every adapter, no premise. *)
+Theorem C11_inner_osim : forall A cfg hy deny d,
+  inner_osim (process_inner A cfg true hy deny d) (process_inner A cfg false hy deny d).
+Proof. exact process_inner_osim. Qed.
+Check C11_inner_osim : forall A cfg hy deny d,
+  (process_inner A cfg true hy deny d = I_EXIT /\
+   match process_inner A cfg false hy deny d with
+   | IRes _ _ he _ ap => he = true \/ In AalOther ap
+   | IPanic _ => True
+   end) \/
+  match process_inner A cfg false hy deny d with
+  | IRes ptu b he db ap => he = false /\ process_inner A cfg true hy deny d = process_inner A cfg false hy deny d
+  | IPanic s => process_inner A cfg true hy deny d = process_inner A cfg false hy deny d
+  end.
+Print Assumptions C11_inner_osim.
+
+(* THE PASSTHROUGH OUTCOME, IN FULL (C11_passthrough_statement), for EVERY adapter (no premise): in every mode
+   (fail-fast or mark-errors, any policy, any sinks, with or without ASCII sink), outside Known_C11 (finding F-C11-2,
+   exactly), Passthrough is returned only for an ASCII input that is its own ToASCII result (to_ascii returns it
+   borrowed).  The premise H0 of the other clauses is not needed here: a Passthrough result has no AalOther entry,
+   and such a marking run is reproduced by the fail-fast run (C11_inner_osim). *)
+Theorem C11_passthrough : forall A cfg, C11_passthrough_statement A cfg.
+Proof. exact c11_passthrough_all. Qed.
+Check C11_passthrough : forall A cfg ff p d deny hy k1 k2 w s a, bytes d -> valid_deny deny ->
   process A cfg ff p d deny hy k1 k2 w = (PPassthrough, s, a) ->
   Known_C11 A cfg d deny hy = false ->
   ascii d /\ to_ascii A cfg d deny hy DIgnore = Ok (true, d).
